@@ -191,14 +191,30 @@ def run_close(case: dict) -> tuple[list[str], dict[str, Any]]:
             return lines, {}
         lines.append("hs ok")
         try:
-            got = 0
-            want = sum(recs)
-            while got < want:
-                d = tr.recv(65536, LIMIT)
-                if not d:
-                    break
-                got += len(d)
-            if mode == "closed":
+            if case.get("reads") is not None:
+                # only `reads` receive calls of `bufsize` bytes: application data from the peer is still unread at close time
+                pre = bytearray()
+                rsize = int(case.get("bufsize", 65536))
+                for _ in range(int(case["reads"])):
+                    if case.get("method") == "recv_into":
+                        buf = bytearray(rsize)
+                        nb = tr.recv_into(buf, LIMIT)
+                        d = bytes(buf[:nb])
+                    else:
+                        d = tr.recv(rsize, LIMIT)
+                    if not d:
+                        break
+                    pre += d
+                lines.append("pre-plain " + core.hexs(bytes(pre)))
+            else:
+                got = 0
+                want = sum(recs)
+                while got < want:
+                    d = tr.recv(65536, LIMIT)
+                    if not d:
+                        break
+                    got += len(d)
+            if mode == "closed" and case.get("pre_eof", True):
                 d = tr.recv(65536, LIMIT)
                 lines.append("pre " + ("eof" if not d else f"data {len(d)}"))
         except TimeoutError:
